@@ -2293,7 +2293,7 @@ func (fr *Frame) assertAtClauses(instr ssa.Instruction, b *ssa.BasicBlock, st *S
 		return
 	}
 	for _, cl := range fr.fc.Clauses {
-		if cl.Kind != "assertat" || !strings.Contains(line, cl.Anchor) {
+		if (cl.Kind != "assertat" && cl.Kind != "atinst") || !strings.Contains(line, cl.Anchor) {
 			continue
 		}
 		key := fmt.Sprintf("%p|%d", cl, p.Line)
@@ -2318,9 +2318,22 @@ func (fr *Frame) assertAtClauses(instr ssa.Instruction, b *ssa.BasicBlock, st *S
 			env.pre = li.headState
 			env.preBlk = li.header
 		}
+		if cl.Kind == "atinst" {
+			c.assume(st.reach, c.lemmaInstance(env, cl.Src, cl.File, cl.Line))
+			continue
+		}
 		g := c.evalBool(env, cl.Expr)
-		c.oblige(st, "assert", cl.Label, cl.Props, g, pos, fmt.Sprintf("before %q: %s", cl.Anchor, cl.Src))
-		c.assume(st.reach, g)
+		goal := g
+		for _, u := range cl.Using {
+			goal = implies(c.lemmaInstance(env, u, cl.File, cl.Line), goal)
+		}
+		c.oblige(st, "assert", cl.Label, cl.Props, goal, pos, fmt.Sprintf("before %q: %s", cl.Anchor, cl.Src))
+		if len(cl.Using) == 0 {
+			// an assertion proved with its own lemma instances stays local: its conclusion is not
+			// handed to the rest of the function (recursive spec functions in it would be unfolded
+			// by every later query)
+			c.assume(st.reach, g)
+		}
 	}
 }
 
